@@ -287,6 +287,9 @@ pub struct App {
     /// MQTT 5: diagnostics every acknowledgement produced by the handlers carries
     /// (reason string, user properties)
     pub ack_decor: RefCell<Option<(Option<String>, Vec<(String, String)>)>>,
+    /// the control service takes its time with every "write back-pressure enabled" notification:
+    /// it stays pending until the controller opens its gate
+    pub wr_on_gated: Cell<bool>,
 }
 
 impl App {
@@ -333,6 +336,7 @@ impl App {
             pub_inner: RefCell::new(VecDeque::new()),
             proto_inner: RefCell::new(VecDeque::new()),
             ack_decor: RefCell::new(None),
+            wr_on_gated: Cell::new(false),
         })
     }
 
